@@ -131,7 +131,7 @@ Theorem migration_preserves : forall cfg perm folder order,
   v1_load files <> [] ->
   covers perm (v1_load files) ->
   exists hydf st,
-    migrate cfg perm false folder PreNone =
+    migrate cfg perm WNoFault folder PreNone =
       (MS (if delete_old cfg then None else Some folder) (PreFile hydf), PSuccess) /\
     load_index hydf = Some st /\
     (forall k, ilookup k (fst st) = ilookup k (v1_load order)) /\
@@ -163,7 +163,7 @@ Theorem failure_leaves_v1_intact : forall cfg perm wf folder pre st ph,
   migrate cfg perm wf folder pre = (st, ph) ->
   (m_v1 st = Some folder \/ m_v1 st = None) /\
   (m_v1 st = None -> delete_old cfg = true /\ dry_run cfg = false /\ (ph = PSuccess \/ ph = PSkippedEmpty)) /\
-  (ph = PSuccess -> wf = false /\
+  (ph = PSuccess -> wf = WNoFault /\
      (verify cfg = true -> exists ix, mig_load (v1_files folder) = MLOk ix /\ verify_ok (m_hyd st) ix = true)) /\
   (ph = PFailVerify -> m_hyd st = PreNone) /\
   (ph = PFailLoad \/ ph = PDryRun \/ ph = PSkippedEmpty -> m_hyd st = pre).
@@ -179,9 +179,7 @@ Proof.
       * intros E; inversion E; subst; simpl.
         repeat split; auto; try discriminate; intros [?|[?|?]]; reflexivity.
       * unfold write_v2. destruct (open_target pre (v1_meta folder)) as [f0|].
-        -- destruct wf.
-           ++ intros E; inversion E; subst; simpl.
-              repeat split; auto; try discriminate; intros [?|[?|?]]; discriminate.
+        -- destruct wf as [| |].
            ++ destruct (vf && negb (verify_ok (PreFile (fappend f0 (compact_entries (p0 :: ix0) perm))) (p0 :: ix0))) eqn:Ev.
               ** intros E; inversion E; subst; simpl.
                  repeat split; auto; try discriminate; intros [?|[?|?]]; discriminate.
@@ -190,6 +188,10 @@ Proof.
                  split; [|split; [discriminate | intros [?|[?|?]]; discriminate]].
                  intros _. split; [reflexivity|]. intros ->. simpl in Ev.
                  exists (p0 :: ix0). split; [reflexivity|]. apply negb_false_iff in Ev. exact Ev.
+           ++ destruct pre; intros E; inversion E; subst; simpl;
+                repeat split; auto; try discriminate; intros [?|[?|?]]; discriminate.
+           ++ intros E; inversion E; subst; simpl.
+              repeat split; auto; try discriminate; intros [?|[?|?]]; discriminate.
         -- intros E; inversion E; subst; simpl.
            repeat split; auto; try discriminate; intros [?|[?|?]]; discriminate.
 Qed.
@@ -209,7 +211,7 @@ Definition ex_folder : v1folder := V1 [VF true (VSegs [SOk 1 10; SOk 3 30])] 7.
 
 Theorem preexisting_hyd_refuted :
   exists pre st,
-    migrate (CFG false true true) [1; 3] false ex_folder (PreFile pre) = (st, PSuccess) /\
+    migrate (CFG false true true) [1; 3] WNoFault ex_folder (PreFile pre) = (st, PSuccess) /\
     m_v1 st = None /\
     ilookup 2 (v1_load (v1_files ex_folder)) = None /\
     option_map (fun s => (ilookup 2 (fst s), snd s)) (match hyd_img (m_hyd st) with Some f => load_index f | None => None end)
@@ -237,7 +239,7 @@ Qed.
 (* a target file with a complete but corrupt block stays unreadable after the append: without
    --verify the migration reports success and --delete-old removes the only readable copy *)
 Theorem corrupt_target_refuted :
-  exists st, migrate (CFG false false true) [1; 3] false ex_folder (PreFile (FTorn 9 [])) = (st, PSuccess) /\
+  exists st, migrate (CFG false false true) [1; 3] WNoFault ex_folder (PreFile (FTorn 9 [])) = (st, PSuccess) /\
              m_v1 st = None /\ (match hyd_img (m_hyd st) with Some f => load_index f | None => None end) = None.
 Proof. eexists. split; [vm_compute; reflexivity|]. vm_compute. split; reflexivity. Qed.
 
@@ -389,7 +391,7 @@ Theorem migration_preserves_v1_histories : forall ops cs cfg perm meta order,
   (forall f, In f order <-> In f (v1_files folder)) ->
   dry_run cfg = false -> v1_load (v1_files folder) <> [] -> covers perm (v1_load (v1_files folder)) ->
   exists hydf st,
-    migrate cfg perm false folder PreNone = (MS (if delete_old cfg then None else Some folder) (PreFile hydf), PSuccess) /\
+    migrate cfg perm WNoFault folder PreNone = (MS (if delete_old cfg then None else Some folder) (PreFile hydf), PSuccess) /\
     load_index hydf = Some st /\
     (forall k, ilookup k (fst st) = ilookup k (v1_load order)) /\ snd st = meta.
 Proof.
@@ -405,6 +407,6 @@ Example v1_history_example :
 Proof. vm_compute; reflexivity. Qed.
 
 Example migrate_example :
-  migrate (CFG false true true) [3; 2; 1] false (V1 (map chunk_file [[(1, 11)]; [(3, 30); (2, 21)]]) 7) PreNone
+  migrate (CFG false true true) [3; 2; 1] WNoFault (V1 (map chunk_file [[(1, 11)]; [(3, 30); (2, 21)]]) 7) PreNone
   = (MS None (PreFile (FGood 7 [E OSet 3 30; E OSet 2 21; E OSet 1 11])), PSuccess).
 Proof. vm_compute; reflexivity. Qed.
